@@ -526,3 +526,143 @@ _c07_prev2 = harnesses
 
 def harnesses(tier):   # noqa: F811
     return _c07_prev2(tier) + [LookupTwice(tier)]
+
+
+# --------------------------------------------------------------------------------------------------------------
+class ExpandAliases(Harness):
+    """`eval_query`'s definition arm follows aliases with `expand_aliases`, a `while let` loop over `definitions` and
+    `canonicalize` guarded by three `assert!`s: on every database the loader can produce (alias graph acyclic, targets
+    resolvable) it must return - no assert, and no more iterations than there are definitions."""
+    name = 'eval_query.definition.expand_aliases'
+    props = ('C04', 'C07')
+    entry_name = 'can_show_definition ; expand_aliases'
+    loop_bound = 14
+    _concrete = None
+    ALIASES = [('al', 'at', ('unit_at',)), ('bl', 'al', ('unit_al',)), ('cl', 'dat', ()), ('dl', 'ts', ()), ('el', 'tee', ('long_t',)),
+               ('fl', 'dtee', ('long_t',)), ('gl', 'bls', ('unit_bl',)), ('hl', 'decaat', ('unit_at',))]
+    QDEFS = [('ql', 't', ()), ('dal', 'at', ('unit_at',)), ('qm', 'al', ('unit_al',)), ('tes', 'el', ('unit_el',))]
+    PREFIXES = [('deci', 'x'), ('d', 'x'), ('deca', 'y'), ('da', 'y')]
+    QUERIES = ['al', 'bl', 'cl', 'dl', 'el', 'fl', 'gl', 'hl', 'ql', 'dal', 'qm', 'tes', 'dbl', 'bls', 'dbls', 'tee', 'tees', 't', 'ts', 'dat',
+               'at', 'ats', 'dals', 'dql', 'decael', 'dgl', 'zz']
+
+    def __init__(self):
+        self.describe = ('the definition query of %d names on a symbolic database: base unit t (long name tee or none), unit at, %d aliases '
+                         '%s and %d quantity entries %s, each present or not, prefixes %s') % (
+            len(self.QUERIES), len(self.ALIASES), [(a, b) for a, b, _ in self.ALIASES], len(self.QDEFS), [(a, b) for a, b, _ in self.QDEFS],
+            [p for p, _ in self.PREFIXES])
+        self.assumptions = ['database as the loader leaves it: an alias or quantity entry is present only if what it refers to resolves; the alias '
+                            'graph is acyclic (fixed here); a quantity entry is in `definitions` only']
+        self.bounds = ['the name universe above; at most %d loop iterations (the database has at most %d definitions): running past that is '
+                       'reported as not terminating and replayed natively under a time limit' % (self.loop_bound, len(self.ALIASES) + len(self.QDEFS) + 2)]
+        self.expect_classes = ['shown', 'not-shown']
+
+    def build(self, ex, I):
+        base, longn, units, defs = MapV(), MapV(), MapV(), MapV()
+        base.ent['t'] = [base_unit('t'), True, Tup([])]
+        pl = I.bool('long_t')
+        longn.ent['t'] = ['t', pl, 'tee']
+        units.ent['tee'] = ['tee', pl, number(rational(Fraction(1)), dim({'t': (True, 1)}))]
+        defs.ent['tee'] = ['tee', pl, expr_unit(ex, 't')]
+        pres = {'long_t': pl}
+        pa = I.bool('unit_at')
+        pres['unit_at'] = pa
+        units.ent['at'] = ['at', pa, number(rational(I.real('val_at')), dim({'t': (True, 1)}))]
+        defs.ent['at'] = ['at', pa, expr_const(ex, rational(Fraction(3)))]
+        for n, target, needs in self.ALIASES:
+            p = I.bool('unit_%s' % n)
+            pres['unit_%s' % n] = p
+            for k in needs:
+                ex.assume(z3.Implies(p, pres[k]))
+            units.ent[n] = [n, p, number(rational(I.real('val_%s' % n)), dim({'t': (True, 1)}))]
+            defs.ent[n] = [n, p, expr_unit(ex, target)]
+        for n, target, needs in self.QDEFS:
+            p = I.bool('quantity_%s' % n)
+            for k in needs:
+                ex.assume(z3.Implies(p, pres[k]))
+            defs.ent[n] = [n, p, expr_unit(ex, target)]
+        pv = {'x': I.real('prefix_x'), 'y': I.real('prefix_y')}
+        ex.assume(z3.And(pv['x'] != 0, pv['y'] != 0, pv['x'] != pv['y']))
+        plist = Arr([Tup([p, rational(pv[k])]) for p, k in self.PREFIXES])
+        reg = make_struct(ex, 'Registry', {'base_units': base, 'base_unit_long_names': longn, 'units': units, 'definitions': defs,
+                                           'prefixes': plist})
+        ctxv = make_struct(ex, 'Context', {'registry': reg, 'temporaries': MapV(), 'now': Opaque('now'), 'use_humanize': True,
+                                           'save_previous_result': False, 'previous_result': none(ex)})
+        q = self.QUERIES[ex.choose(len(self.QUERIES), 'name')]
+        return [ctxv, q], {'q': q}
+
+    def entry(self, ex, args, ctx):
+        from mirsym.exec import BoundHit, PanicEvent
+        ctxv, q = args
+        shown = ex.call(None, 'runtime::eval::can_show_definition', [ref(ctxv), q])
+        if simp(shown) is not True:
+            if simp(shown) is not False:
+                raise Unmodelled('can_show_definition: symbolic result')
+            return Tup([False, Tup([])])
+        try:
+            r = ex.call(None, 'runtime::eval::expand_aliases', [ref(ctxv), q])
+        except BoundHit as e:
+            raise PanicEvent('expand_aliases does not return: %s' % e, 'runtime::eval::expand_aliases')
+        return Tup([True, r])
+
+    def classify(self, outcome):
+        if outcome[0] == 'panic':
+            return 'panic'
+        return 'shown' if deref_all(outcome[1]).fields[0] is True else 'not-shown'
+
+    def post(self, ex, ctx, outcome):
+        t = deref_all(outcome[1])
+        if t.fields[0] is not True:
+            return []
+        name, canon = (deref_all(x) for x in deref_all(t.fields[1]).fields)
+        return [('expand_aliases returns two names', isinstance(name, str) and isinstance(canon, str))]
+
+    def case(self, ctx, vals, label):
+        c = Harness.case(self, ctx, vals, label)
+        c['inputs']['q'] = ctx['q']
+        return c
+
+    def model_db(self, inputs):
+        def val(x):
+            return str(x) if x is not None else '1'
+        units, dims, defs, longs = {}, {}, {}, {}
+        if inputs.get('long_t'):
+            longs['t'] = 'tee'
+        if inputs.get('unit_at'):
+            units['at'] = val(inputs.get('val_at'))
+            dims['at'] = 't'
+            defs['at'] = None
+        for n, t, _ in self.ALIASES:
+            if inputs.get('unit_%s' % n):
+                units[n] = val(inputs.get('val_%s' % n))
+                dims[n] = 't'
+                defs[n] = t
+        for n, t, _ in self.QDEFS:
+            if inputs.get('quantity_%s' % n):
+                defs[n] = t
+        pv = {'x': val(inputs.get('prefix_x')), 'y': val(inputs.get('prefix_y'))}
+        return {'bases': ['t'], 'long_names': longs, 'units': units, 'unit_dims': dims, 'plain_dims': True, 'definitions': defs,
+                'prefixes': [[p, pv[k]] for p, k in self.PREFIXES]}
+
+    def native(self, inputs, label):
+        return [dict(self.model_db(inputs), mode='lookup_seq', names=[], define=[inputs['q']])]
+
+    def judge(self, inputs, label, obs):
+        o = obs[0]
+        db = json.dumps(self.model_db(inputs))
+        if o.get('outcome') == 'timeout':
+            return True, 'the query `%s` on database %s does not finish (time limit of the native replay)' % (inputs['q'], db)
+        if o.get('outcome') == 'panic':
+            return True, 'the query `%s` on database %s panics: %s' % (inputs['q'], db, o.get('panic'))
+        if o.get('outcome') != 'ok':
+            return False, 'native replay: %s' % json.dumps(o)[:300]
+        d = o['defines'][0]
+        if d.get('outcome') == 'panic':
+            return True, 'the query `%s` on database %s panics: %s' % (inputs['q'], db, d.get('panic'))
+        return False, 'the query `%s` on the model database answers %s' % (inputs['q'], json.dumps(d)[:200])
+
+
+_c07_prev3 = harnesses
+
+
+def harnesses(tier):   # noqa: F811
+    return _c07_prev3(tier) + [ExpandAliases()]
